@@ -233,6 +233,36 @@ def main():
                     key = obs.split(" ")[0].strip("(")
                     dist[key] = dist.get(key, 0) + 1
                     route_cases.append("(%s, %s, %s, %s, %s)" % (clist(EXTS, cB), fs_term, cP(root_comps), cB(pinfo), obs))
+        # ---- the data directory reached through a symbolic link (the directory itself, or one of its parents): same answers
+        top, rootname, root, entries = layouts[0]
+        link_root = os.path.join(top, "link_to_" + rootname)
+        link_top = os.path.join(base_tmp, "link_to_top")
+        try:
+            os.symlink(root, link_root)
+            os.symlink(top, link_top)
+            plain_app = DapServer(root)
+            for via in (link_root, os.path.join(link_top, rootname)):
+                linked = DapServer(via)
+                for req_path in ["/", "/t.csv", "/sub/", "/catalog.xml", "/t.csv.dds", "/sub/u.csv.das", "/notes.txt", "/nope",
+                                 "/../other/s.txt", "/../%s2/t.csv.dds" % rootname, "/.."]:
+                    r.count(("linked-root", os.path.basename(via), req_path))
+
+                    def ask(app_):
+                        try:
+                            res_ = Request.blank(req_path).get_response(app_)
+                            return res_.status_int, (res_.body if res_.content_type not in ("text/html", "application/xml") else b"")
+                        except ExtensionNotSupportedError:
+                            return "unsupported", b""
+                        except Exception as e:  # noqa
+                            return type(e).__name__, b""
+                    a1, a2 = ask(plain_app), ask(linked)
+                    if a1 != a2:
+                        direct.append({"law": "a data directory reached through a symbolic link is served like the directory itself",
+                                       "configured_path": via, "real_path": root, "request": req_path, "status_direct": str(a1[0]),
+                                       "status_through_link": str(a2[0])})
+                        break
+        except OSError:
+            pass
         for s in ["a.b", ".bashrc", "a", "a.", "..a", "...", "a.b.c", "x.tar.gz", ".", "", "..", "a..b", ".a.b", "t.csv.dds"] + \
                 ["".join(rng.choice("ab..") for _ in range(rng.randint(0, 6))) for _ in range(200)]:
             b, e = os.path.splitext(s)
